@@ -156,6 +156,31 @@ func cases(tier string, want func(docIdx int64) bool, f func(idx int64, doc, mod
 			})
 		}
 	}
+	// the end of the document: names with trailing blanks, blank-only names and exotic white space on the LAST item,
+	// followed by every kind of ending (nothing, one or more line ends, blank lines, CRLF)
+	for _, unit := range []string{"  ", "\t"} {
+		alpha := lineAlphabet(unit)[:6]
+		tails := []string{"- a  ", "- a\t", unit + "- b \t ", unit + "-\t", unit + "-   ", unit + "- a\u00a0", "- a\v", unit + "- \u3000"}
+		ends := []string{"", "\n", "\n\n", "\n \t\n", "\r\n", " ", "\n\v\n"}
+		for L := 0; L <= 2 && ok; L++ {
+			enum.Tuples(L, len(alpha), func(t []int) {
+				for _, tl := range tails {
+					for _, en := range ends {
+						if !ok {
+							return
+						}
+						emitN(6, func() string {
+							doc := strings.Join(enum.Pick(alpha, t), "\n")
+							if L > 0 {
+								doc += "\n"
+							}
+							return doc + tl + en
+						})
+					}
+				}
+			})
+		}
+	}
 	// size families: wide fan-out, deep chains, many roots (with a repeated sibling name and a file-like leaf)
 	for size := 1; size <= 40 && ok; size++ {
 		var dw, dc, dr []int
